@@ -7,8 +7,8 @@ from pv import k1, native
 
 def main():
     modname = sys.argv[1]
-    mod = importlib.import_module(modname)
-    reg = mod.registry()
+    from pv.contract import load_registry
+    reg = load_registry(modname)
     names = sys.argv[2:] or list(reg.contracts)
     tier = os.environ.get('TIER', 'quick')
     for n in names:
